@@ -10,7 +10,7 @@ CLAIMS = {
  'C01': dict(technique='TLC model checking of AlgebraModel against CliffordRef (refinement of the transcribed sign algorithm) + TLC trace validation of the tables every TLC-enumerated configuration reports',
              text='TLC checks, for every enumerated user-level configuration, that kingdon\'s transcribed swap-count sign algorithm refines the Clifford sign defined from first principles and that the relations hold; the same configurations (TLC state dump) are built in the real library and every reported sign-table entry, Cayley string, blade product and permuted spelling is validated by TLC against the reference and against the relations themselves.',
              note=TB + 'Exhaustive: (p,q,r) with p+q+r<=4 (thorough 5), all signatures d<=3 (thorough 4), all custom bases d<=2, start indices {none,0,1,2}; sampled: custom bases d=3..5, d=5..8 incl. lazy tables.', ref='6 C01'),
- 'C02': dict(technique='TLC trace validation of generic-coefficient (polynomial) events against the TLA+ reference product; TLC model checking of the reference layer',
+ 'C02': dict(technique='TLC trace validation of generic-coefficient (polynomial) events against the TLA+ reference product; TLC model checking of the reference layer and of CodegenModel (the code\'s bitmask filters / sign functions / output keys refine the reference on all basis-blade pairs)',
              text='Every (configuration, ordered key-tuple pair) compiles its own function; it is executed on formal indeterminates and TLC compares the recorded polynomial of every output blade with the bilinear extension computed in the TLA+ reference (absent = 0). A polynomial identity over Z holds for all values of any commutative ring.',
              note=TB + 'Assumes generated code uses only ring operations on its inputs. Exhaustive d<=1; d=2 all canonical subset pairs + sampled orders (thorough: all 4225 ordered pairs per signature; d=3 all 256x256 canonical subset pairs for two signatures); sampled above to d=8.', ref='6 C02'),
  'C03': dict(technique='TLC trace validation of generic-coefficient events against grade-part definitions in the TLA+ reference; lemmas ip+sp=lc+rc, cp+acp=gp model-checked',
@@ -39,7 +39,7 @@ CLAIMS = {
  'C10': dict(technique='TLC model checking of GenOnce (action property of Kingdon.tla) + TLC trace validation of recorded compile / cache-store / name-publication events of histories that repeat every pattern with other values and coefficient types',
              text='GenOnce (every look-up of a cached pattern is a hit; nothing is compiled, published or stored again for a cached pattern) is an action property checked over all sequential histories of the model, incl. composite operators and failing generations; on the real library every compile() made from kingdon/codegen.py (audit hook), every cache store and name publication is replayed through the model state by TLC for histories in which each (operator, key pattern) recurs with indeterminates, int, float, Fraction, numpy and sympy coefficients.',
              note=TB + 'sys.addaudithook compile events whose caller is kingdon/codegen.py are the generation events; the first call of a symbolic multivector (custom_N) is not an operator generation.', ref='6 C10'),
- 'C11': dict(technique='TLC trace validation of registered-program events: registered = plain function = Sem(program) (MultivectorRef!EvalTree) = fresh algebra; name resolution at call time by Kingdon.tla/TraceKingdon DispatchExact',
+ 'C11': dict(technique='TLC model checking of TapeModel (transcribed TapeRecorder vs Sem(program) over a bounded program grammar; pinned-code constants refuted) with replay of the TLC-enumerated cases into register(); TLC trace validation: registered = plain function = Sem(program) = fresh algebra; name resolution at call time by Kingdon.tla/TraceKingdon DispatchExact',
              text='Programs over the README operator table (all depth-1 forms, sampled deeper trees, 1-3 arguments, plain and symbolic registration, with/without wrapper, same-named functions) run on formal indeterminates; TLC compares the registered result with the plain python function, with the semantics of the program tree computed in the reference, and with a fresh algebra; inside the listed grammar a registered function may raise only if the plain function raises.',
              note=TB + 'harness/programs.py generates the source text; programs whose plain evaluation raises on indeterminates (sqrt/norm) constrain only wrong values. Known findings F4c, F1b.', ref='6 C11'),
  'C12': dict(technique='TLC trace validation: symbolic results as rational functions compared with the reference for all values; numeric evaluations (positional/keyword call, subs, numeric operator) compared with PolyRing!REvalQ of the symbolic result',
@@ -58,7 +58,7 @@ CLAIMS = {
  'C16': dict(technique='TLC trace validation against BroadcastModel: lane-wise operator semantics, frame condition of getitem/setitem on addressed positions, operand-kind resolution with order kept',
              text='Array-valued operands (ndarray / list / tuple containers, broadcastable shapes) are validated lane by lane against the reference operator (lane pairing = numpy broadcast of position labels); x[idx] and x[idx] = v are validated entry by entry (exactly the addressed entries change); numbers, numpy scalars, lists, tuples and nested callables on either side of every infix and reflected operator are validated element by element with non-commuting operands. Known finding F10.',
              note=TB + 'Integer-valued arrays, rank <= 2; views shared between different multivectors are not asserted.', ref='6 C16'),
- 'C17': dict(technique='TLC model checking of PolynomialModel (transcribed compare/add/mul explored as a state machine: homomorphism, WellFormed preservation, exact zero tests) + TLC trace validation of every explored transition and of random walks on the real Polynomial/RationalPolynomial objects',
+ 'C17': dict(technique='TLC model checking of PolynomialModel (transcribed compare/add/mul explored as a state machine: homomorphism, WellFormed preservation, exact zero tests) and of the AdditionChains loop machine (termination, valid prefix-closed chains, power_supply exponents) + TLC trace validation of every explored transition, of random walks on the real Polynomial/RationalPolynomial objects and of the chains the real code computes',
              text='The transcription of kingdon\'s polynomial algorithms is explored by TLC over reachable pairs of representations; invariants: operators are homomorphisms for the denotation in the fraction field, preserve the representation invariant, zero tests exact. Every state of the exploration is replayed into the real classes and, with random walks (pow of both signs, inv, /, numbers), validated by TLC on denotations (result, bool, == 0, ==, tosympy, operands unchanged, zero test of the difference with the canonical form).',
              note=TB + 'Variables a < a1 < b (< c < x12), coefficients ints and dyadic floats; operands of one class; representation equality is model drift only.', ref='6 C17'),
  'C18': dict(technique='TLC trace validation against MatrixModel: homomorphism on all basis-blade pairs of the recorded matrices, first column, linearity, frommatrix; expr_as_matrix as polynomial identities A.x = y and y = Sem(expression)',
@@ -67,7 +67,7 @@ CLAIMS = {
  'C19': dict(technique='TLC trace validation: exact clauses on generic coefficients (outer series, integer powers); certificates verified by TLC for sqrt / x**0.5 / norm / normalized (r*r = x on nearest fractions) and exp (integer evaluation of the truncated series with remainder bound)',
              text='outerexp/outersin/outercos/outertan and integer powers are decided exactly on formal indeterminates; sqrt, x**0.5, norm, normalized on squares of Study numbers / rational-norm operands by TLC-verified identities on the nearest small-denominator fractions of the float results; exp of simple elements on a grid by evaluating N! g^N sum x^k/k! in integer arithmetic within the remainder bound, for positive/zero/negative squares and float, Fraction, numpy, sympy values. Known findings F9a/F9b (numpy arrays).',
              note=TB + 'Weakest fit of the technique: irrational clauses are decided to a stated tolerance on certificates; complex coefficients are not exercised.', ref='6 C19'),
- 'C20': dict(technique='TLC trace validation against GraphModel: the widget as a state machine (create/drag/update); front-end decoding (toElement) and the drag frame condition are defined in TLA+',
+ 'C20': dict(technique='TLC model checking of GraphModel (encode / front-end decode / drag write-back as a state machine over every key tuple of the 2-D algebra and 3-D layouts; the pre-repair key rule is refuted) + TLC trace validation of real widget scenes (create/drag/update)',
              text='Random subject trees (colour ints, strings, multivectors of 8 storage kinds, array-valued, lists, tuples, callables) are given to the real GraphWidget; after creation and each drag/update TLC decodes the payload by the front-end rules and compares it with every reachable multivector, checks signature/Cayley/key2idx against AlgebraModel, and that a drag overwrote exactly the addressed coefficients and callables were re-evaluated.',
              note=TB + 'Only the transport (bytes -> Float64Array) is emulated in python; default-basis algebras d<=4; small integer coefficients.', ref='6 C20'),
 }
